@@ -82,6 +82,9 @@ def create_tree_using_stacks(g: Grammar, r: ListWrapper, failures_limit=100):
             # print("..........")
             # print(target_type, "|", stacks)
             if is_abstract(target_type):
+                if target_type not in g.alternatives:
+                    # an abstract symbol without productions can never be built: a failed attempt, like an empty stack
+                    raise IndexError()
                 concrete = r.choice(g.alternatives[target_type])
                 if stacks[concrete]:
                     v = stacks[concrete].pop(0)
